@@ -31,3 +31,48 @@ package iterator
 //@   ensures res.Variant != ResponseVariantData && old(s.cycle.counter) != 0 && old(s.cycle.res.SeqNum) == res.SeqNum ==> s.cycle.res.Ack == (old(s.cycle.res.Ack) || res.Ack)
 //@   ensures res.Variant != ResponseVariantData && old(s.cycle.counter) != 0 && old(s.cycle.res.SeqNum) == res.SeqNum ==> s.cycle.res.Error == __ite(old(s.cycle.res.Error) != nil, old(s.cycle.res.Error), res.Error)
 //@   modifies s
+
+//@ ignorepkg github.com/synnaxlabs/x/confluence/plumber
+//@ ignorepkg github.com/samber/lo
+//@ import channel "github.com/synnaxlabs/synnax/pkg/distribution/channel"
+//@ import node "github.com/synnaxlabs/synnax/pkg/distribution/node"
+//@ import address "github.com/synnaxlabs/x/address"
+//@ import telem "github.com/synnaxlabs/x/telem"
+//@ import confluence "github.com/synnaxlabs/x/confluence"
+//@ import freightfluence "github.com/synnaxlabs/freighter/freightfluence"
+//@ import freighter "github.com/synnaxlabs/freighter"
+
+//@ # constructors and I/O of the pipeline: opaque here, what they build is verified on its own methods
+//@ trusted func newSynchronizer(nodeCount int, ins alamos.Instrumentation) (seg confluence.Segment[Response, Response])
+//@   modifies nothing
+//@ trusted func newBroadcaster() (b *broadcaster)
+//@   modifies nothing
+//@ trusted func newPeerSender(generateSeqNums bool) (p *peerSender)
+//@   ensures p != nil && __fresh(p) && len(p.Senders) == 0
+//@   modifies nothing
+//@ trusted func (s *Service) newGateway(cfg Config, generateSeqNums bool) (seg confluence.Segment[Request, Response], err error)
+//@   modifies nothing
+//@ trusted func (s *Service) openPeerClient(ctx context.Context, target address.Address, cfg Config) (c ClientStream, err error)
+//@   modifies nothing
+//@ trusted func (s *Service) closePeerClients(senders []freighter.StreamSenderCloser[Request], originalErr error) (err error)
+//@   ensures originalErr != nil ==> err != nil
+//@   modifies nothing
+
+//@ # one receiver is opened per peer leaseholder
+//@ func (s *Service) openManyPeers(ctx context.Context, bounds telem.TimeRange, chunkSize int64, targets map[node.Key][]channel.Key, generateSeqNums bool) (sender *peerSender, receivers []*freightfluence.Receiver[Response], err error)
+//@   ensures err == nil ==> len(receivers) == len(targets)
+//@   loop 0 invariant len(receivers) == __rc(0) && sender != nil
+//@   loop 0 modifies sender
+
+//@ # The synchronizer forwards an acknowledgement once it has seen nodeCount of them: NewStream must
+//@ # size it with the number of response sources it routes into it - one receiver per peer
+//@ # leaseholder plus the gateway iterator if the host leases a channel.
+//@ func (s *Service) NewStream(ctx context.Context, cfg Config) (it StreamIterator, err error)
+//@   pragma from HostKey()
+//@   pragma abstract UniqueLeaseholders NewKey
+//@   # ASSUMPTION (set cardinality, not proved): the distinct leaseholders of the keys are the peer
+//@   # buckets plus the host if it leases a key (free channels are refused by validateChannelKeys)
+//@   assume_after "HostKey()" len(cfg.Keys.UniqueLeaseholders()) == len(batch.Peers) + __ite(needGatewayRouting, 1, 0)
+//@   atcall newSynchronizer nodeCount == len(batch.Peers) + __ite(needGatewayRouting, 1, 0)
+//@   assert_before "plumber.MultiRouter[Response]" len(receiverAddresses) == len(batch.Peers) + __ite(needGatewayRouting, 1, 0)
+//@   loop 0 invariant len(receiverAddresses) == len(receivers)
